@@ -26,6 +26,9 @@ def claim(pid, technique, text, ref=None):
 claim("C03", "effect/purity analysis of the resolved call-graph closure + deep type walk (no interior mutability) + trait-solver Send/Sync facts + setter backward slices, over rustc MIR",
       "Sound static decision that every function body reachable from Engine::synthesize/generator and SpeechGenerator's API is free of effects other than allocation and stderr diagnostics, reads only its arguments and constants, that no type reachable from &Engine admits mutation (audited: Arc counts, regex scratch cache), that Engine is Send+Sync, that setters are history-free and clones derived. This is the whole content of C03 (determinism, no engine mutation, schedule independence) as a code-shape fact; it is not an exploration of interleavings.")
 
+claim("C18", "panic-capable-construct and allocation ledger over the loader's resolved call-graph closure (MIR Assert terminators, panicking std APIs, explicit capacities), mechanical guards + audited table",
+      "Sound static decision of the no-panic and no-header-sized-allocation clauses of C18 for every byte sequence: every construct in the loader closure that can panic (bounds/overflow/division asserts, panic!/todo!/unwrap/expect, indexing and range slicing, length-precondition APIs, generic integer arithmetic) or allocate by an explicit size is mechanically discharged, matched to an audited entry with a shape check, or reported. Termination is not decided. Genuine defect sites are listed in known_findings.txt until repaired.")
+
 
 def main():
     props = [json.loads(l) for l in open(os.path.join(VERIF, "properties.jsonl"))]
